@@ -1,11 +1,16 @@
 package checks
 
 import (
+	"crypto/ecdsa"
+	"crypto/ed25519"
+	"crypto/elliptic"
+	"crypto/rsa"
 	"crypto/x509"
 	"crypto/x509/pkix"
 	"encoding/asn1"
 	"encoding/pem"
 	"fmt"
+	"math/big"
 	"net/url"
 	"regexp"
 	"strings"
@@ -227,6 +232,11 @@ func runC10(r *mc.Run) {
 	c10Call(r, "msg/degenerate/zero-options", "verify.TdxQuote", nil, func() error {
 		return verify.TdxQuote(q0, &verify.Options{TrustedRoots: w.Roots})
 	})
+
+	// (2b) certificates whose subject public key is of another type than the signature algorithm they were
+	// signed with (an ECDSA-signed certificate carrying an Ed25519 / RSA / other-curve key), at every position of
+	// the quote's chain and of the issuer-chain headers
+	c10KeyTypes(r, w, vopts)
 
 	// (3) arbitrary endpoint behaviour
 	c10Endpoints(r, bases[0])
@@ -477,4 +487,135 @@ func nonNil(b []byte) []byte {
 		return []byte{}
 	}
 	return b
+}
+
+func c10KeyTypes(r *mc.Run, w *world.World, vopts *validate.Options) {
+	T := w.PKI
+	edPub := ed25519.NewKeyFromSeed(world.Fill("c10-ed25519-seed", 32)).Public()
+	rsaN := new(big.Int).SetBytes(world.Fill("c10-rsa-modulus", 256))
+	rsaN.SetBit(rsaN, 2047, 1)
+	rsaN.SetBit(rsaN, 0, 1)
+	p384, _ := ecdsa.GenerateKey(elliptic.P384(), detReader("c10-p384"))
+	p224, _ := ecdsa.GenerateKey(elliptic.P224(), detReader("c10-p224"))
+	p521, _ := ecdsa.GenerateKey(elliptic.P521(), detReader("c10-p521"))
+	keys := []struct {
+		name string
+		pub  any
+	}{{"ed25519", edPub}, {"rsa2048", &rsa.PublicKey{N: rsaN, E: 65537}}, {"p384", &p384.PublicKey}, {"p224", &p224.PublicKey}, {"p521", &p521.PublicKey}}
+	type variant struct {
+		name  string
+		apply func(p *world.QuoteParts, g *world.Getter, pub any)
+	}
+	leafSpec := func(pub any) *x509.Certificate {
+		return world.MakeCert(world.CertSpec{CN: world.CNLeaf, Key: T.LeafKey, PubKey: pub, SGXExt: world.SGXExtension(w.Plat)}, T.Inter, T.InterKey)
+	}
+	interSpec := func(pub any) *x509.Certificate {
+		return world.MakeCert(world.CertSpec{CN: world.CNPlatform, IsCA: true, Key: T.InterKey, PubKey: pub, MaxPathLen: -1}, T.Root, T.RootKey)
+	}
+	rootSpec := func(pub any) *x509.Certificate {
+		return world.MakeCert(world.CertSpec{CN: world.CNRoot, IsCA: true, Key: T.RootKey, PubKey: pub, MaxPathLen: 1}, nil, T.RootKey)
+	}
+	tcbSpec := func(pub any) *x509.Certificate {
+		return world.MakeCert(world.CertSpec{CN: world.CNTcb, Key: T.TcbKey, PubKey: pub}, T.Root, T.RootKey)
+	}
+	hdr := func(g *world.Getter, url, key string, certs ...*x509.Certificate) {
+		resp := g.Responses[url]
+		resp.Header = map[string][]string{key: {world.IssuerChainHeader(certs...)}}
+		g.Responses[url] = resp
+	}
+	tcbURL := world.URLTcbInfo(hexs(w.Plat.FMSPC))
+	variants := []variant{
+		{"chain/leaf", func(p *world.QuoteParts, g *world.Getter, pub any) {
+			p.Chain = world.PEM(leafSpec(pub), T.Inter, T.Root)
+		}},
+		{"chain/intermediate", func(p *world.QuoteParts, g *world.Getter, pub any) {
+			p.Chain = world.PEM(T.Leaf, interSpec(pub), T.Root)
+		}},
+		{"chain/root", func(p *world.QuoteParts, g *world.Getter, pub any) {
+			p.Chain = world.PEM(T.Leaf, T.Inter, rootSpec(pub))
+		}},
+		{"chain/all-three", func(p *world.QuoteParts, g *world.Getter, pub any) {
+			p.Chain = world.PEM(leafSpec(pub), interSpec(pub), rootSpec(pub))
+		}},
+		{"tcbinfo-header/signer", func(p *world.QuoteParts, g *world.Getter, pub any) {
+			hdr(g, tcbURL, world.HdrTcbInfo, tcbSpec(pub), T.Root)
+		}},
+		{"tcbinfo-header/root", func(p *world.QuoteParts, g *world.Getter, pub any) {
+			hdr(g, tcbURL, world.HdrTcbInfo, T.Tcb, rootSpec(pub))
+		}},
+		{"qeidentity-header/signer", func(p *world.QuoteParts, g *world.Getter, pub any) {
+			hdr(g, world.URLQeIdentity, world.HdrQeIdentity, tcbSpec(pub), T.Root)
+		}},
+		{"qeidentity-header/root", func(p *world.QuoteParts, g *world.Getter, pub any) {
+			hdr(g, world.URLQeIdentity, world.HdrQeIdentity, T.Tcb, rootSpec(pub))
+		}},
+		{"pckcrl-header/ca", func(p *world.QuoteParts, g *world.Getter, pub any) {
+			hdr(g, world.URLPckCrl("platform"), world.HdrPckCrl, interSpec(pub), T.Root)
+		}},
+		{"pckcrl-header/root", func(p *world.QuoteParts, g *world.Getter, pub any) {
+			hdr(g, world.URLPckCrl("platform"), world.HdrPckCrl, T.Inter, rootSpec(pub))
+		}},
+	}
+	type job struct{ v, k int }
+	var jobs []job
+	for v := range variants {
+		for k := range keys {
+			jobs = append(jobs, job{v, k})
+		}
+	}
+	done := r.Parallel(len(jobs), func(i int) {
+		j := jobs[i]
+		id := fmt.Sprintf("keytype/%s=%s", variants[j.v].name, keys[j.k].name)
+		if !r.Want(id) {
+			return
+		}
+		p := w.Parts.Clone()
+		g := w.Getter.Clone()
+		func() {
+			defer func() {
+				if x := recover(); x != nil {
+					r.HarnessError("C10 %s: cannot build the certificate: %v", id, x)
+				}
+			}()
+			variants[j.v].apply(p, g, keys[j.k].pub)
+		}()
+		raw, _ := p.Bytes()
+		for _, l := range []int{world.L0, world.L2} {
+			l := l
+			o := w.Options(l)
+			o.Getter = g.Clone()
+			c10Call(r, id, "verify.RawTdxQuote/"+lvlName[l], nil, func() error { return verify.RawTdxQuote(raw, o) })
+		}
+		if q, err := safeToProto(raw); err == nil {
+			c10Call(r, id, "verify.ExtractChainFromQuote", nil, func() error { _, e := verify.ExtractChainFromQuote(q); return e })
+			o := w.Options(world.L2)
+			o.Getter = g.Clone()
+			c10Call(r, id, "verify.SupportedTcbLevelsFromCollateral", nil, func() error {
+				_, _, e := verify.SupportedTcbLevelsFromCollateral(q, o)
+				return e
+			})
+		}
+	})
+	r.SectionDone(mc.Section{Name: "certificate-key-types", Evaluations: int64(done) * 4, Exhaustive: done == len(jobs),
+		Note: fmt.Sprintf("%d positions x %d subject key types", len(variants), len(keys))})
+}
+
+// detReader is a deterministic byte stream for key generation.
+type detStream struct {
+	label string
+	n     int
+	buf   []byte
+}
+
+func detReader(label string) *detStream { return &detStream{label: label} }
+func (d *detStream) Read(p []byte) (int, error) {
+	for i := range p {
+		if len(d.buf) == 0 {
+			d.buf = world.Fill(fmt.Sprintf("%s/%d", d.label, d.n), 64)
+			d.n++
+		}
+		p[i] = d.buf[0]
+		d.buf = d.buf[1:]
+	}
+	return len(p), nil
 }
